@@ -35,6 +35,17 @@ def chunkAppend (chunked : Bool) (d : Bytes) : Bytes :=
   else if chunked then chunkLenLine d.length ++ d ++ [cr, lf]
   else d
 
+/-- http_chunk_append_file_ref_range(): a range of a file of `content`, clamped to the file size;
+    nothing if the clamped range is empty -/
+def chunkAppendFileRange (chunked : Bool) (content : Bytes) (off len : Nat) : Bytes :=
+  let len' := if content.length - off < len then content.length - off else len
+  chunkAppend chunked ((content.drop off).take len')
+
+/-- http_chunk_append_file_fd_range(): no clamping, the caller passes an existing non-empty range -/
+def chunkAppendFdRange (chunked : Bool) (content : Bytes) (off len : Nat) : Bytes :=
+  let d := (content.drop off).take len
+  if chunked then chunkLenLine len ++ d ++ [cr, lf] else d
+
 /-- http_chunk_close() (no backend trailers): the last-chunk and the final CRLF -/
 def chunkClose (chunked : Bool) : Bytes :=
   if chunked then [48, cr, lf, cr, lf] else []
